@@ -223,8 +223,7 @@ def run_poisson(task):
 
 
 def check_state(r, k, masks, task):
-    trains = [lattice.times(m) for m in masks]
-    edges = lattice.edges(k)
+    trains, edges = pairs.trains_edges(k, masks)
     eval_lattice(r, trains, edges, "py", (k, pairs.nspikes(masks)))
     if r.states % 499 == 1:
         r.sample({"trains": trains, "edges": edges, "bin_sizes": bin_sizes(k)})
